@@ -15,6 +15,7 @@ EXPLANATION = (
     "suffix wins, prefix stripped from every match), SK-MATCHFN (the prefix filter applies no condition beyond the prefix pattern), SK-FRESH (scratch arrays compared with a word are reset per iteration), FLAGS (tables and the code reading them are "
     "emitted under the same flags; one command-id set is shared). "
     "NOT decided: that bash executes the skeleton as these rules assume; the automaton's correctness (C02/C03) and the within-word function (C12); readline's own behaviour. One open finding (W4: `break` out of the walk at a command point)."
+    " Added after the fourth held-out round: SK-SUB S7/S8 (the shared within-word matcher walks its own `||` levels from 0 and every variable it reads from its caller is declared by each wrapper), LOOKUP (shared with C02/C11) and LITLIST (shared with C04)."
 )
 ASSUMPTIONS = [
     "vlib/bashparse.py parses the bash subset the templates use; loop targets of continue N / break N are computed from the parse",
